@@ -1,4 +1,5 @@
 """C01 — merge is a commutative monoid homomorphism: partition-invariant aggregation."""
+import execs
 import gen
 from props import common
 
@@ -9,7 +10,7 @@ LEVEL_NOTE = 'Exact-rational arithmetic with nan/+-inf (IEEE rounding of sums/me
 TECHNIQUE = 'Lean 4 proof over a hand-written model + model/implementation correspondence + implementation-level oracle'
 LEAN_MODULE = "Hg.Props.C01"
 THEOREMS = ["Hg.C01.add_zero_right", "Hg.C01.add_zero_left", "Hg.C01.add_comm", "Hg.C01.add_assoc", "Hg.C01.fill_add_hom",
-            "Hg.C01.fillAll_append", "Hg.C01.partition_invariant"]
+            "Hg.C01.fillAll_append", "Hg.C01.partition_invariant", "Hg.C01.count_transform_partition_invariant"]
 CASES = {"quick": 320, "thorough": 12000}
 RULE = ("random tree spec (all 19 primitives, depth<=3), stream of <=14 weighted records over the tree's critical values "
         "incl. NaN/+-inf and gate weights, random partition into 1..5 chunks (empty ones allowed), random reduction "
@@ -97,8 +98,80 @@ def build(p):
     return {"ops": ops, "expect": expect}
 
 
+def transform_check(p):
+    """Implementation-level (a weight transform of Count is outside the model): with a linear transform the merge laws hold
+    just the same — chunks filled into empty copies and merged in the case's schedule equal the single fill; zero() is a
+    two-sided identity; copy() equals the original."""
+    import copy as _copy
+
+    spec, k = p["spec"], p["k"]
+    if not any(s_["k"] == "Count" for s_ in gen.walk(spec)):
+        return []
+    real_count = gen.hg.Count
+    half = lambda w: 0.5 * w  # noqa: E731
+
+    def build_t():
+        # every Count of the tree halves the weight it is given (Count's documented `transform`)
+        gen.hg.Count = lambda *a, **kw: real_count(half)
+        try:
+            return gen.build(spec)
+        finally:
+            gen.hg.Count = real_count
+
+    def doc(h):
+        return execs.canon_doc(h.toJson())
+
+    try:
+        whole = build_t()
+    except Exception:  # noqa: BLE001
+        return []
+    stream = [(r[0], r[1]) for r in p["stream"]]
+    chunks = [[(r[0], r[1]) for r in p["stream"] if r[2] == c] for c in range(k)]
+    msgs = []
+    try:
+        for d, w in stream:
+            whole.fill(d, w)
+        parts = []
+        for c in chunks:
+            h = whole.zero()
+            for d, w in c:
+                h.fill(d, w)
+            parts.append(h)
+
+        def red(sch):
+            if isinstance(sch, int):
+                return parts[sch]
+            return red(sch[0]) + red(sch[1])
+
+        total = red(_copy.deepcopy(p["sched"]))
+        d = execs.diff_doc(doc(total), doc(whole))
+        if d:
+            msgs.append("with Counts that halve their weight: the merged chunks differ from the single fill: %s" % d)
+        for name, x in (("whole + zero", whole + whole.zero()), ("zero + whole", whole.zero() + whole), ("copy", whole.copy())):
+            d = execs.diff_doc(doc(x), doc(whole))
+            if d:
+                msgs.append("with Counts that halve their weight: %s differs from the aggregate: %s" % (name, d))
+    except Exception as e:  # noqa: BLE001
+        msgs.append("with Counts that halve their weight: %s: %s" % (type(e).__name__, str(e)[:200]))
+    return msgs
+
+
+def post_model(py, model):
+    import copy as _copy
+
+    from runner import dec
+
+    p = dec(py.case["params"])
+    ws = [r[1] for r in p["stream"]]
+    chunks = [[r[1] for r in p["stream"] if r[2] == c] for c in range(p["k"])]
+    # the model's whole-stream value is order-free (C01.count_transform_partition_invariant), so the chunk-wise order is fine
+    return common.countt_post(model, [w for c in chunks for w in c], chunks, _copy.deepcopy(p["sched"]), len(ws) + p["k"])
+
+
 def oracle(case, py, replies):
-    return common.eval_expect(case, py, replies)
+    from runner import dec
+
+    return common.eval_expect(case, py, replies) + transform_check(dec(case["params"]))
 
 
 stats = common.basic_stats
